@@ -252,8 +252,8 @@ func (e *Evidence) write(path string) error {
 		}
 	}
 	sort.Strings(unhit)
-	if len(unhit) > 40 {
-		unhit = append(unhit[:40], fmt.Sprintf("… %d more", len(unhit)-40))
+	if len(unhit) > 200 {
+		unhit = append(unhit[:200], fmt.Sprintf("… %d more", len(unhit)-200))
 	}
 	tasks := map[string]int{}
 	for k, v := range e.byTasks {
